@@ -34,7 +34,7 @@ Qed.
 Theorem reject_macro_redefined f s v :
   ctype s = TT_DEFINE -> ctype (next s) = TT_NAME ->
   let s2 := next (next s) in
-  (has_routine s2 (ctext s2) || is_executable (ctype s2) || is_type s2 TT_BEGIN || is_type s2 TT_WITH) = false ->
+  (routine_start s2) = false ->
   get_macro s2 (ctext (next s)) = Some v ->
   p_command (S f) s = PErr (cline s2).
 Proof.
@@ -47,7 +47,7 @@ Qed.
 Theorem reject_nested_routine f s :
   ctype s = TT_DEFINE -> ctype (next s) = TT_NAME ->
   let s2 := next (next s) in
-  (has_routine s2 (ctext s2) || is_executable (ctype s2) || is_type s2 TT_BEGIN || is_type s2 TT_WITH) = true ->
+  (routine_start s2) = true ->
   p_in_routine s2 = true ->
   p_command (S f) s = PErr (cline s2).
 Proof.
@@ -61,7 +61,7 @@ Qed.
 Theorem reject_macro_redefined_as_routine f s v :
   ctype s = TT_DEFINE -> ctype (next s) = TT_NAME ->
   let s2 := next (next s) in
-  (has_routine s2 (ctext s2) || is_executable (ctype s2) || is_type s2 TT_BEGIN || is_type s2 TT_WITH) = true ->
+  (routine_start s2) = true ->
   get_macro s2 (ctext (next s)) = Some v ->
   p_command (S f) s = PErr (cline s2).
 Proof.
